@@ -1,6 +1,132 @@
-(* C20 — visualisation shows exactly the graph's structure in every expansion state. *)
+(* C20 — the visualisation shows exactly the graph's structure in every expansion state.
+
+   What is proved here (models: coq/theories/Viz.v):
+     * to_flat_graph (Viz.flatten_all) lists every node of every nesting level exactly once, under its
+       parent, with unique hierarchical ids whose string form "a/b/c" is injective;
+     * enumerate_valid_expansion_states (Viz.enum_states) returns, without repetition, exactly the states
+       in which every expanded container has all enclosing containers expanded; build_expansion_state(depth)
+       is one of them and shows exactly the nodes of nesting level <= depth;
+     * the checker Viz.viz_problems, applied by the harness to EVERY drawing the renderer produces, reports no
+       problem exactly for the drawings that satisfy the declarative predicate Faithful (VizProofs.v).
+   The renderer itself is validated per output (translation validation), not modelled. *)
 From HG Require Import Base Viz VizProofs.
 
-Theorem C20_placeholder : forall a b, nid_eqb a b = true <-> a = b.
-Proof. exact nid_eqb_eq. Qed.
-Print Assumptions C20_placeholder.
+(* ---------------------------------------------------------------- flattening *)
+
+Theorem C20_flatten_once : forall ts, wf_ts ts -> NoDup (map f_id (flatten_all ts)).
+Proof. exact flatten_all_nodup. Qed.
+Print Assumptions C20_flatten_once.
+
+Theorem C20_flatten_exact : forall ts, wf_ts ts -> forall f,
+  In f (flatten_all ts) <-> exists t, lookup ts (f_id f) = Some t /\ f = entry_at (f_id f) t.
+Proof. exact flatten_all_spec. Qed.
+Print Assumptions C20_flatten_exact.
+
+Theorem C20_flatten_count : forall ts, length (flatten_all ts) = size_ts ts.
+Proof. exact flatten_all_length. Qed.
+Print Assumptions C20_flatten_count.
+
+Theorem C20_flatten_parent : forall ts f, In f (flatten_all ts) ->
+  f_parent f = match removelast (f_id f) with [] => None | q => Some q end.
+Proof. exact flatten_all_parent. Qed.
+Print Assumptions C20_flatten_parent.
+
+Theorem C20_flatten_parent_listed : forall ts, wf_ts ts -> forall f q,
+  In f (flatten_all ts) -> f_parent f = Some q -> exists g, In g (flatten_all ts) /\ f_id g = q.
+Proof. exact flatten_all_parent_listed. Qed.
+Print Assumptions C20_flatten_parent_listed.
+
+Theorem C20_ids_injective : forall (A : Type) (sep : A) (l1 l2 : list (list A)),
+  l1 <> [] -> l2 <> [] -> Forall (fun x => ~ In sep x) l1 -> Forall (fun x => ~ In sep x) l2 ->
+  join sep l1 = join sep l2 -> l1 = l2.
+Proof. exact @join_inj. Qed.
+Print Assumptions C20_ids_injective.
+
+(* ---------------------------------------------------------------- expansion states *)
+
+Theorem C20_states : forall l st, In st (enum_states l) <-> map fst st = l /\ valid_state st = true.
+Proof. exact enum_states_spec. Qed.
+Print Assumptions C20_states.
+
+Theorem C20_states_no_repetition : forall l, NoDup (enum_states l).
+Proof. exact enum_states_nodup. Qed.
+Print Assumptions C20_states_no_repetition.
+
+Theorem C20_valid_means : forall st, NoDup (map fst st) ->
+  (valid_state st = true <->
+   forall n, st_get st n = true -> forall a, In a (ancestors n) -> st_get st a = true).
+Proof. exact valid_state_spec. Qed.
+Print Assumptions C20_valid_means.
+
+Theorem C20_ancestors : forall n a, In a (ancestors n) <-> a <> [] /\ exists r, r <> [] /\ n = a ++ r.
+Proof. exact ancestors_spec. Qed.
+Print Assumptions C20_ancestors.
+
+Theorem C20_depth_state : forall d l,
+  (forall n a, In n l -> In a (ancestors n) -> In a l) -> In (state_of_depth d l) (enum_states l).
+Proof. exact state_of_depth_enumerated. Qed.
+Print Assumptions C20_depth_state.
+
+Theorem C20_depth_visible : forall d l n, (forall a, In a (ancestors n) -> In a l) ->
+  (vis (state_of_depth d l) n = true <-> level n <= d).
+Proof. exact vis_state_of_depth. Qed.
+Print Assumptions C20_depth_visible.
+
+(* ---------------------------------------------------------------- the checker *)
+
+Theorem C20_checker : forall m ts es ext st D,
+  viz_problems m ts es ext st D = [] <-> Faithful m ts es ext st D.
+Proof. exact viz_problems_spec. Qed.
+Print Assumptions C20_checker.
+
+(* ---------------------------------------------------------------- non-vacuity *)
+
+(* Graph([mk(x)->a, Graph([c1(a,k)->b, c2(a,b)->c], name='inner').as_node(), use(c,x)->d]) *)
+Definition ex_ts : list tnode :=
+  [ TN 1 false [10] [11] [] [] false [] [];
+    TN 2 true [11; 12] [13; 14] [] [] false
+       [ TN 3 false [11; 12] [13] [] [] false [] [];
+         TN 4 false [11; 13] [14] [] [] false [] [] ]
+       [ (3, 4, KData, [13]) ];
+    TN 5 false [14; 10] [15] [] [] false [] [] ]%positive.
+Definition ex_es : list tedge := [ (1, 2, KData, [11]); (2, 5, KData, [14]) ]%positive.
+Definition ex_ext : list name := [10; 12]%positive.
+Definition ex_st : xstate := [ ([2%positive], true) ].
+
+Definition ex_nodes : list dnode :=
+  [ {| d_key := 1; d_kind := DReal [1]; d_hidden := false |};
+    {| d_key := 2; d_kind := DReal [2]; d_hidden := false |};
+    {| d_key := 3; d_kind := DReal [2; 3]; d_hidden := false |};
+    {| d_key := 4; d_kind := DReal [2; 4]; d_hidden := false |};
+    {| d_key := 5; d_kind := DReal [5]; d_hidden := false |};
+    {| d_key := 6; d_kind := DInput [10]; d_hidden := false |};
+    {| d_key := 7; d_kind := DInput [12]; d_hidden := false |} ]%positive.
+Definition E s t ty := {| e_src := s; e_tgt := t; e_ty := ty |}.
+Definition ex_edges_good : list dedge :=
+  [ E 6 1 TInput; E 6 5 TInput; E 7 3 TInput; E 1 3 TData; E 1 4 TData; E 3 4 TData; E 4 5 TData ]%positive.
+(* the drawing produced before repository fix 4590cc9: the value entering the container reaches c1 only *)
+Definition ex_edges_legacy : list dedge :=
+  [ E 6 1 TInput; E 6 5 TInput; E 7 3 TInput; E 1 3 TData; E 3 4 TData; E 4 5 TData ]%positive.
+Definition ex_mode := {| separate := false; inputs_complete := true |}.
+
+Example C20_wf_example : wf_ts ex_ts.
+Proof.
+  split.
+  - simpl. repeat constructor; simpl; intuition discriminate.
+  - repeat constructor; simpl; intuition (try discriminate); repeat constructor; simpl; intuition discriminate.
+Qed.
+
+Example C20_faithful_example :
+  Faithful ex_mode ex_ts ex_es ex_ext ex_st {| dnodes := ex_nodes; dedges := ex_edges_good |}.
+Proof. apply viz_problems_spec. vm_compute. reflexivity. Qed.
+
+(* the checker is not vacuous: the pre-fix drawing of the same state is rejected, for the dependency mk -> inner/c2 *)
+Example C20_F8_detected :
+  viz_problems ex_mode ex_ts ex_es ex_ext ex_st {| dnodes := ex_nodes; dedges := ex_edges_legacy |}
+  = [ (4%nat, [1], [2; 4], 11, 1) ]%positive.
+Proof. vm_compute. reflexivity. Qed.
+
+Example C20_states_example :
+  enum_states [ [2]; [2; 6] ]%positive =
+  [ [ ([2], false); ([2; 6], false) ]; [ ([2], true); ([2; 6], false) ]; [ ([2], true); ([2; 6], true) ] ]%positive.
+Proof. vm_compute. reflexivity. Qed.
